@@ -94,7 +94,9 @@ class BatchNorm(Operation):
             if (
                 self.gamma is not None
             ):  # backprop through optional affine transformation
-                gamma = self.gamma.data
+                # (read through `variables`: an in-place update of the caller's gamma
+                # after the forward pass re-routes the operation to the old values)
+                gamma = self.variables[1].data
                 grad_ *= gamma.reshape(keepdims_shape)
             return grad_
 
